@@ -49,6 +49,9 @@ type faultReader struct {
 	ci      int
 	zeroGap bool // interleave (0,nil) reads
 	gap     bool
+	// lastWithErr: the final bytes arrive together with io.EOF (or with the injected error) in one Read,
+	// as io.Reader allows and HTTP bodies, decompressors and iotest.DataErrReader do
+	lastWithErr bool
 }
 
 var errInjectedRead = errors.New("injected storage read error")
@@ -86,6 +89,12 @@ func (r *faultReader) Read(p []byte) (int, error) {
 	}
 	copy(p, r.data[r.pos:r.pos+n])
 	r.pos += n
+	if r.lastWithErr && r.pos >= limit {
+		if r.failAt >= 0 {
+			return n, errInjectedRead
+		}
+		return n, io.EOF
+	}
 	return n, nil
 }
 
@@ -248,11 +257,41 @@ func (c06) RunCase(c *fw.Ctx, rng *fw.RNG, batch, i int) {
 	plain := func(data []byte) func() *faultReader {
 		return func() *faultReader { return &faultReader{data: data, failAt: -1} }
 	}
+	// the same bytes with the last ones delivered together with io.EOF, in a few chunk sizes (so that the
+	// data+EOF read carries 1 byte, a few, or everything)
+	withEOF := func(name string, data []byte) {
+		for _, ch := range [][]int{nil, {1}, {len(data) - 1, 64}, {7}} {
+			chs := ch
+			if len(chs) > 0 && chs[0] <= 0 {
+				continue
+			}
+			try(fmt.Sprintf("%s, last bytes with io.EOF, chunks %v", name, chs), func() *faultReader {
+				return &faultReader{data: data, failAt: -1, chunks: chs, lastWithErr: true}
+			})
+			c.Count("data_with_eof_reads", 1)
+		}
+	}
 	for bit := 0; bit < len(blk.data)*8; bit++ {
 		m := append([]byte(nil), blk.data...)
 		m[bit/8] ^= 1 << (bit % 8)
 		try(fmt.Sprintf("bitflip@%d", bit), plain(m))
 		c.Count("bitflips", 1)
+		if bit%8 == 3 || bit >= (len(blk.data)-2)*8 {
+			withEOF(fmt.Sprintf("bitflip@%d", bit), m)
+		}
+	}
+	withEOF("unmodified block", blk.data)
+	// an extended block arriving in pieces: the genuine block first (a short read ending exactly at its end),
+	// then the extension — two network packets, or a buffered reader refilling
+	split := func(name string, ext []byte) {
+		for _, ch := range [][]int{{len(blk.data), 1 << 20}, {1}, {len(blk.data) - 1, 1, 1 << 20}} {
+			chs := ch
+			if chs[0] <= 0 {
+				continue
+			}
+			try(fmt.Sprintf("%s, arriving in pieces %v", name, chs), func() *faultReader { return &faultReader{data: ext, failAt: -1, chunks: chs} })
+			c.Count("split_extension_reads", 1)
+		}
 	}
 	for l := 0; l < len(blk.data); l++ {
 		try(fmt.Sprintf("truncate@%d", l), plain(blk.data[:l:l]))
@@ -260,9 +299,16 @@ func (c06) RunCase(c *fw.Ctx, rng *fw.RNG, batch, i int) {
 	}
 	for _, b := range []byte{0x00, ' ', '\n', 0xff, '}', 0x01} {
 		try(fmt.Sprintf("append %#02x", b), plain(append(append([]byte(nil), blk.data...), b)))
+		withEOF(fmt.Sprintf("append %#02x", b), append(append([]byte(nil), blk.data...), b))
+		split(fmt.Sprintf("append %#02x", b), append(append([]byte(nil), blk.data...), b))
 		c.Count("extensions", 1)
 	}
 	try("append whitespace run", plain(append(append([]byte(nil), blk.data...), []byte(" \n\t \n")...)))
+	withEOF("append whitespace run", append(append([]byte(nil), blk.data...), []byte(" \n\t \n")...))
+	withEOF("append junk run", append(append([]byte(nil), blk.data...), []byte("junkjunkjunk")...))
+	split("append whitespace run", append(append([]byte(nil), blk.data...), []byte(" \n\t \n")...))
+	split("append junk run", append(append([]byte(nil), blk.data...), []byte("junkjunkjunk")...))
+	split("append whitespace then junk", append(append([]byte(nil), blk.data...), []byte("\n \n{}")...))
 	for k, o := range others {
 		try(fmt.Sprintf("substitute other block %d", k), plain(o.data))
 		c.Count("substitutions", 1)
@@ -270,6 +316,9 @@ func (c06) RunCase(c *fw.Ctx, rng *fw.RNG, batch, i int) {
 	for k := 0; k <= len(blk.data); k++ {
 		kk := k
 		try(fmt.Sprintf("read error after %d bytes", kk), func() *faultReader { return &faultReader{data: blk.data, failAt: kk} })
+		if kk > 0 {
+			try(fmt.Sprintf("read error delivered with the last of %d bytes", kk), func() *faultReader { return &faultReader{data: blk.data, failAt: kk, lastWithErr: true} })
+		}
 		c.Count("read_errors_injected", 1)
 	}
 	// a corrupted block whose reader also fails late
